@@ -197,11 +197,21 @@ def check_text(text, fn, label, part, every=1, chunk=0, nchunks=1):
 CONTEXTS = [('space', ' {v}'), ('paren', '({v})'), ('bracket', '[{v}]'), ('brace', '{{{v}}}'), ('comma', '0,{v}'), ('equals', 'zz={v}'),
             ('plus', '0+{v}'), ('minus', '-{v}'), ('star', '[*{v}]'), ('colon', 'lambda:{v}'), ('colon-slice', 'zz[0:{v}]'), ('not', 'not {v}'),
             ('decorator-at', '@{v}\ndef dd(): pass'), ('dict-value', '{{0:{v}}}'), ('keyword-arg', 'print(end={v})'), ('compare', '0<{v}'),
-            ('string', '"{v}"'), ('comment', '# {v}'), ('fstring', 'f"{{{v}}}"'), ('attr-after-call', 'print().{v}'), ('subscript-attr', 'zz[0].{v}')]
+            ('string', '"{v}"'), ('comment', '# {v}'), ('fstring', 'f"{{{v}}}"'), ('attr-after-call', 'print().{v}'), ('subscript-attr', 'zz[0].{v}'),
+            ('yield-from', 'def ff():\n    yield from {v}'), ('raise-from', 'raise E_ from {v}'), ('raise-from-call', 'raise E_(0) from {v}'), ('return', 'def ff():\n    return {v}'),
+            ('await', 'async def ff():\n    await {v}'), ('in', '0 in {v}'), ('is-not', '0 is not {v}'), ('and', '0 and {v}'), ('if-else', '0 if {v} else 1'),
+            ('for-in', 'for q in {v}: pass'), ('assert', 'assert {v}'), ('with', 'with {v}: pass'), ('del-subscript', 'del zz[{v}]'), ('print-arg', 'print(0, {v})'),
+            ('import-then', 'import m1; {v}'), ('from-import-then', 'from m1 import x1; {v}'), ('from-in-comment-before', 'zz = 0  # from\n{v}'),
+            ('lambda-default', 'lambda q={v}: q'), ('starstar', 'dict(**{v})'), ('matmul', '0@{v}'), ('walrus', '(q := {v})'), ('tab', '\t{v}' if False else 'if 1:\n\t{v}')]
+
+IMPORT_CONTEXTS = ['from m1 import x{C}1', 'from m1 import(x{C}1)', 'from m1 import (x1, y{C}1)', 'from m1 import x1,y{C}1', 'from m1 import x1 as zz, y{C}1',
+                   'import m{C}1', 'import m1, m{C}2', 'import m1 as zz, m{C}2', 'import pk.s{C}ub', 'from pk.s{C}ub import s1', 'from pk import s{C}ub', 'from pk.sub import s{C}1',
+                   'from m1 import\tx{C}1', 'from  m1  import  x{C}1', 'from m1 import \\\n    x{C}1', 'from m1 import (\n    x1,\n    y{C}1,\n)', 'from . import m{C}1', 'from .m1 import x{C}1',
+                   'if 1: from m1 import x{C}1', 'import m1; from m2 import x{C}2', 'from m{C}1 import x1', 'from pk.s{C}', 'from pk.{C}', 'import pk.{C}', 'from m1 import {C}']
 
 
 def context_cases(prog):
-    """the program with each expression-statement read re-rendered in every preceding context"""
+    """the program with each expression-statement read re-rendered in every preceding context -> (name, text, cursor)"""
     rp = ps.render(prog, 'plain')
     lines = rp.text.rstrip('\n').split('\n')
     for r, rs in rp.reads.items():
@@ -210,17 +220,38 @@ def context_cases(prog):
         ln, col = rs.pos
         ind = lines[ln - 1][:col]
         for cname, tmpl in CONTEXTS:
-            new = tmpl.format(v=rs.var).split('\n')
-            body = [ind + x for x in new]
+            new = tmpl.replace('{v}', '@V@').replace('{{', '{').replace('}}', '}').split('\n')
+            body = []
+            cur = None
+            for k, x in enumerate(new):
+                if '@V@' in x and cur is None:
+                    cur = (ln + k, len(ind) + x.index('@V@') + len(rs.var))
+                body.append(ind + x.replace('@V@', rs.var))
             text = '\n'.join(lines[:ln - 1] + body + lines[ln:]) + '\n'
             try:
                 ast.parse(text)
             except SyntaxError:
                 continue
-            c = col + tmpl.split('\n')[0].index('{v}') - (2 if cname in ('brace', 'dict-value') and False else 0)
-            first = tmpl.split('\n')[0]
-            c = col + first.replace('{{', '{').replace('}}', '}').index('{v}') + len(rs.var)
-            yield cname, text, (ln, c), rs.var
+            yield cname, text, cur, rs.var
+
+
+def import_cases():
+    for tmpl in IMPORT_CONTEXTS:
+        for end in (True, False):
+            t = tmpl
+            i = t.index('{C}')
+            # cursor inside the name ({C}) or at the end of that name
+            line_text = t.replace('{C}', '')
+            if end:
+                j = i
+                while j < len(line_text) and (line_text[j].isalnum() or line_text[j] == '_'):
+                    j += 1
+            else:
+                j = i
+            before = line_text[:j]
+            ln = before.count('\n') + 1
+            col = len(before) - (before.rfind('\n') + 1)
+            yield tmpl + ('|end' if end else '|inside'), 'zz = 0\n' + line_text + '\n', (ln + 1, col)
 
 
 _SP = {}
@@ -253,7 +284,23 @@ def unit_progs(arg):
                 r, vs = contract(ctext, pos, nc.FILE, 'context ' + cname, part)
                 for sig, what in vs:
                     part.violation(sig + ':ctx-' + cname, what + '\n--- source ---\n' + ctext, {'kind': 'cursor1', 'text': ctext, 'pos': list(pos), 'ctx': cname})
+                if (lo + i) % 32 == 0:
+                    # mark transparency in that context as well
+                    for sig, what, wit in check_text(ctext, nc.FILE, 'context ' + cname, part):
+                        part.violation(sig + ':ctx-' + cname, what + '\n--- source ---\n' + ctext, dict(wit, suffix=':ctx-' + cname))
     part.outcome(('progs', lo, part.counters['cursors']))
+    return part
+
+
+def unit_imports(_):
+    part = Part()
+    for label, text, pos in import_cases():
+        part.count('evaluations')
+        part.count('import_context_cursors')
+        r, vs = contract(text, pos, nc.FILE, 'import context ' + label, part)
+        for sig, what in vs:
+            part.violation(sig + ':import-ctx', what + '\n--- source ---\n' + text, {'kind': 'cursor1', 'text': text, 'pos': list(pos), 'ctx': 'import'})
+    part.outcome('imports')
     return part
 
 
@@ -280,8 +327,8 @@ def replay(w):
     p = Part()
     if w['kind'] == 'cursor1':
         r, vs = contract(w['text'], tuple(w['pos']), nc.FILE, 'context ' + w['ctx'], p)
-        return [(s + ':ctx-' + w['ctx'], wh) for s, wh in vs]
-    return [(s, wh) for s, wh, _ in check_text(w['text'], w['fn'], w['label'], p)]
+        return [(s + (':import-ctx' if w['ctx'] == 'import' else ':ctx-' + w['ctx']), wh) for s, wh in vs]
+    return [(s + w.get('suffix', ''), wh) for s, wh, _ in check_text(w['text'], w['fn'], w['label'], p)]
 
 
 def run(ctx):
@@ -289,6 +336,7 @@ def run(ctx):
     sp = space(ctx.tier)
     step = 25
     units = [(unit_progs, (ctx.tier, lo, min(len(sp), lo + step))) for lo in range(0, len(sp), step)]
+    units.append((unit_imports, None))
     repo = sorted(corpus.repo_files(), key=os.path.getsize)
     repo = [f for f in repo if not f.endswith('umsgpack.py')]
     for i, f in enumerate(repo):
@@ -304,6 +352,7 @@ def run(ctx):
                 'plus every expression-statement read re-rendered in %d preceding contexts; distinct_nontrivial = cursors answered' % len(CONTEXTS),
         'cursors': int(c['cursors']),
         'context_cursors': int(c['context_cursors']),
+        'import_context_cursors': int(c['import_context_cursors']),
         'transparency_checks': int(c['transparency_checks']),
         'programs': int(c['programs']),
         'files': int(c['files']),
